@@ -36,7 +36,7 @@ ATTR_ITEMS = [['keep', '"true"'], ['DONT_TOUCH', None], ['src', '"f.v:12"'], ['m
 DEFAULT_FEATURES = {
     'fwd_named_any_order': False,   # D1: first forward named use may list ports in any order / partially
     'late_decl': True, 'negative_index': True, 'escaped': True, 'cells': True, 'prims': True,
-    'assign': True, 'params': True, 'attrs': True, 'positional': True, 'multi_assign': True,
+    'assign': True, 'params': True, 'attrs': True, 'positional': True, 'multi_assign': True, 'positional_prims': True,
 }
 
 
@@ -117,7 +117,7 @@ class Gen:
             prims.append({'name': self.pick_name(used, PRIMNAMES, None),
                           'ports': [{'name': self.pick_name(pu, PNAMES, None), 'width': r.choice([1, 1, 1, 2, 4])}
                                     for _ in range(r.randrange(1, 4))],
-                          'positional': False})
+                          'positional': f['positional'] and f['positional_prims'] and r.random() < 0.3})
         # hierarchy: module i instantiates modules j > i; every j > 0 has a parent i < j  (single root = mods[0])
         children = {i: [] for i in range(nm)}
         for j in range(1, nm):
@@ -218,6 +218,11 @@ class Gen:
         for p in m['ports']:
             nets[p['name']] = (None, None) if p['width'] is None else (p['width'] - 1, 0)
         if m['style'] == 'plain':
+            for p in m['ports']:
+                if r.random() < 0.1:
+                    p['decl_type'] = 'wire'
+                elif p['dir'] == 'output' and r.random() < 0.1:
+                    p['decl_type'] = 'reg'
             names = [p['name'] for p in m['ports']]
             r.shuffle(names)
             # group ports with equal direction and width into one declaration sometimes
@@ -227,13 +232,11 @@ class Gen:
                 grp = [n]
                 if r.random() < 0.3:
                     for o in list(names):
-                        if (byname[o]['dir'], byname[o]['width']) == (byname[n]['dir'], byname[n]['width']) and r.random() < 0.7:
+                        if (byname[o]['dir'], byname[o]['width'], byname[o]['decl_type']) == \
+                                (byname[n]['dir'], byname[n]['width'], byname[n]['decl_type']) and r.random() < 0.7:
                             grp.append(o)
                             names.remove(o)
                 body.append({'k': 'portdecl', 'ports': grp})
-            for p in m['ports']:
-                if r.random() < 0.1:
-                    p['decl_type'] = 'wire'
         # declared wires
         wires = []
         late = []
@@ -307,8 +310,9 @@ class Gen:
         if f['positional'] and r.random() < 0.3:
             named = False
         if kind == 'prim':
-            # a never-declared primitive takes named maps only in the main stream (positional ones are finding D6)
-            named = True
+            # a never-declared module is used either always by name or always by position; by position every use
+            # has the full width (a later, wider positional use is finding V06-positional-undeclared-no-growth)
+            named = not t['positional']
         conns = []
         usable = {n: rg for n, rg in nets.items()}
 
@@ -327,6 +331,8 @@ class Gen:
                 r.shuffle(plist)
                 if r.random() < 0.3 and plist:
                     plist = plist[:r.randrange(0, len(plist) + 1)]
+            if kind == 'prim' and not plist and ports and r.random() < 0.85:
+                plist = [r.choice(ports)]   # (a primitive without any port is finding V04-portless-primitive: kept rare)
             for p in plist:
                 pw = p['width'] or 1
                 conns.append([p['name'], conn_expr(pw, True)])
@@ -334,7 +340,10 @@ class Gen:
             k = len(ports) if r.random() < 0.75 else r.randrange(0, len(ports) + 1)
             for p in ports[:k]:
                 pw = p['width'] or 1
-                conns.append([None, conn_expr(pw, False)])
+                if kind == 'prim':
+                    conns.append([None, fix_late(self.expr(usable, implied, pw), late_names, nets)])
+                else:
+                    conns.append([None, conn_expr(pw, False)])
         prm = self.params(0.3 if kind != 'mod' else 0.1)
         return {'k': 'inst', 'mod': t['name'], 'name': name, 'params': prm,
                 'pstyle': 'defparam' if (prm and r.random() < 0.3) else 'hash', 'attrs': self.attrs(0.2),
@@ -448,7 +457,10 @@ class Writer:
         for p in m['ports']:
             if m['style'] == 'ansi':
                 w = p['width']
-                hp.append(p['dir'] + self.sp() + self.rng_txt(None if w is None else w - 1, None if w is None else 0) + vname(p['name']))
+                # 'inherit_dir': no direction keyword of its own (takes the previous port's); 'decl_type': net type
+                hp.append(('' if p.get('inherit_dir') else p['dir'] + self.sp()) +
+                          ((p['decl_type'] + self.sp()) if p.get('decl_type') else '') +
+                          self.rng_txt(None if w is None else w - 1, None if w is None else 0) + vname(p['name']))
             else:
                 hp.append(vname(p['name']))
         o.append((self.opt() + ',' + self.sp()).join(hp))
